@@ -29,7 +29,8 @@ enum Rule { Create(String), Delete(String), Modify(String), Allow(String), Requi
 #[derive(Clone, Debug)]
 struct MStep { name: String, threshold: u32, keys: Vec<usize>, mat_rules: Vec<Rule>, prod_rules: Vec<Rule> }
 #[derive(Clone, Debug)]
-struct MLink { step: String, signer: usize, filed_under: usize, tampered: bool, mats: Arts, prods: Arts, sub: Option<Sub> }
+/// `recorded`: the `name` written INSIDE the link when it differs from the step the file is filed for (the verifier goes by the file)
+struct MLink { step: String, signer: usize, filed_under: usize, tampered: bool, mats: Arts, prods: Arts, sub: Option<Sub>, recorded: Option<String> }
 /// evidence in the form of a sub-layout: inner steps (name, link present, materials, products) performed by functionary 5
 #[derive(Clone, Debug)]
 struct Sub { inner: Vec<(String, bool, Arts, Arts)>, expired: bool }
@@ -182,7 +183,8 @@ fn gen(rng: &mut Rng) -> Scenario {
             links.push(MLink { step: st.name.clone(), signer: k, filed_under: if rng.chance(6) { 2 + ((k - 2 + 1) % 3) } else { k }, tampered: rng.chance(6),
                                mats: if dissent { arts(rng) } else { shared_m.clone() }, prods: if dissent && rng.chance(50) { arts(rng) } else { shared_p.clone() },
                                sub: if rng.chance(12) { let n = 1 + rng.below(2) as usize;
-                                   Some(Sub { inner: (0..n).map(|i| (format!("in{}", i), !rng.chance(10), if rng.chance(50) { shared_m.clone() } else { arts(rng) }, if rng.chance(50) { shared_p.clone() } else { arts(rng) })).collect(), expired: rng.chance(10) }) } else { None } });
+                                   Some(Sub { inner: (0..n).map(|i| (format!("in{}", i), !rng.chance(10), if rng.chance(50) { shared_m.clone() } else { arts(rng) }, if rng.chance(50) { shared_p.clone() } else { arts(rng) })).collect(), expired: rng.chance(10) }) } else { None },
+                               recorded: if rng.chance(8) { Some(if rng.chance(70) { steps[rng.below(steps.len() as u64) as usize].name.clone() } else { "ghost".to_string() }) } else { None } });
         }
     }
     Scenario { steps, table, owners, signed_by, alias_owner: rng.chance(4), dup_owner_sig: rng.chance(10), expired: rng.chance(3), links }
@@ -224,11 +226,12 @@ fn run_one(s: &Scenario, pool: &[PrivateKey]) -> Result<bool, String> {
             }
             continue;
         }
-        let lm = LinkMetadataBuilder::new().name(l.step.clone()).materials(to_artifacts(&l.mats)).products(to_artifacts(&l.prods)).build().unwrap();
+        let inside = l.recorded.clone().unwrap_or_else(|| l.step.clone());
+        let lm = LinkMetadataBuilder::new().name(inside.clone()).materials(to_artifacts(&l.mats)).products(to_artifacts(&l.prods)).build().unwrap();
         let mut mb = signed_link(&lm, &[&pool[l.signer]]);
         if l.tampered {
             // keep the signature, change the content
-            let other = LinkMetadataBuilder::new().name(l.step.clone()).materials(to_artifacts(&l.mats)).products(artifacts(&[("tampered", 9)])).build().unwrap();
+            let other = LinkMetadataBuilder::new().name(inside.clone()).materials(to_artifacts(&l.mats)).products(artifacts(&[("tampered", 9)])).build().unwrap();
             let sigs = mb.signatures.clone();
             mb = signed_link(&other, &[]);
             mb.signatures = sigs;
